@@ -243,6 +243,7 @@ package tglib
 //@ func GetNasPdu
 //@ prop C10
 //@ behavior ies3
+//@ proofonly
 //@ shape msg.ProtocolIEs.List 3
 //@ requires msg: msg != nil
 //@ requires algs: (ue.IntegrityAlg == 1 || ue.IntegrityAlg == 2) && ue.CipheringAlg <= 2
@@ -255,6 +256,7 @@ package tglib
 //@ func GetNasPdu
 //@ prop C10
 //@ behavior ies4
+//@ proofonly
 //@ shape msg.ProtocolIEs.List 4
 //@ requires msg: msg != nil
 //@ requires algs: (ue.IntegrityAlg == 1 || ue.IntegrityAlg == 2) && ue.CipheringAlg <= 2
@@ -267,6 +269,7 @@ package tglib
 //@ func GetNasPdu
 //@ prop C10
 //@ behavior ies6
+//@ proofonly
 //@ shape msg.ProtocolIEs.List 6
 //@ requires msg: msg != nil
 //@ requires algs: (ue.IntegrityAlg == 1 || ue.IntegrityAlg == 2) && ue.CipheringAlg <= 2
